@@ -11,6 +11,7 @@ mod c04;
 mod c08;
 mod c09;
 mod c10;
+mod c11;
 mod c12;
 mod c13;
 mod c14;
@@ -34,6 +35,7 @@ fn main() {
         ("search", "c09") => c09::search(&args[3..]),
         ("search", "c08") => c08::search(&args[3..]),
         ("search", "c10") => c10::search(&args[3..]),
+        ("search", "c11") => c11::search(&args[3..]),
         ("search", "c12") => c12::search(&args[3..]),
         ("search", "c13") => c13::search(&args[3..]),
         ("search", "c14") => c14::search(&args[3..]),
@@ -78,6 +80,7 @@ fn main() {
                 "kani-values" => c16::replay(&text),
                 "c09-literal" => c09::replay(&text),
                 "c08-match" => c08::replay(&text),
+                "c11-roundtrip" | "c11-malformed" | "c11-program" => c11::replay(&text),
                 "c12-consts" => c12::replay(&text),
                 "c13-join" => c13::replay(&text),
                 "c14-program" => c14::replay(&text),
